@@ -1,5 +1,6 @@
 import Drv.Producer
+import Model.CacheTree
 
 def main : IO UInt32 := do
-  Drv.loop (← IO.getStdin) (← IO.getStdout) ({} : Drv.Prod.St) Drv.Prod.step
+  Drv.loop (← IO.getStdin) (← IO.getStdout) ({} : Drv.Prod.St) (Drv.Prod.step CacheDir.tree)
   return 0
